@@ -727,8 +727,11 @@ func (r *Round) getState() Phase {
 }
 
 func (r *Round) setPhase(state Phase) {
-	if state > r.getState() {
-		atomic.StoreInt32((*int32)(&r.phase), int32(state))
+	for {
+		cur := r.getState()
+		if state <= cur || atomic.CompareAndSwapInt32((*int32)(&r.phase), int32(cur), int32(state)) {
+			return
+		}
 	}
 }
 
